@@ -225,6 +225,15 @@ pub fn check(case: &C03Case, st: &mut Stats) -> Verdict {
             None => (None, Out::Err("not expressible".into())),
         }
     };
+    // the claims must depend on this JWT and this list only, not on what the process verified
+    // before: first verify the complete genuine list, then the list under test
+    {
+        st.sub(1);
+        let (_, primed) = run(genuine);
+        if let Out::Panic(p) = primed {
+            return Err(Failure::new(panic_sig("SDJWTVerifier::new", &p), format!("verifier panicked on the honest full presentation: {}", p)));
+        }
+    }
     let (text, out) = run(&list);
     let text = text.unwrap_or_default();
     let describe = || {
